@@ -314,6 +314,8 @@ TRANSPARENT = [
     'std::pin::Pin::get_mut', 'std::pin::Pin::as_mut',
     'std::pin::Pin::new_unchecked', 'std::pin::Pin::get_unchecked_mut',
     'std::future::IntoFuture::into_future',
+    # variant-preserving adaptors (Ok stays Ok, Err stays Err)
+    'core::result::Result::map_err', 'std::result::Result::map_err',
 ]
 
 
